@@ -20,7 +20,7 @@ RULE = ("for every option of the input/output/rst sections (keys read from confi
         "output.directory = absolute path resolved against cwd or the setting file's directory; an effective wrong-typed "
         "value must raise and document() must not run. Non-trivial: >=1 option set in >=2 sources with different values; "
         "distinct by SHA-1 of the case; coverage lists the (option, source subset) pairs seen")
-RULE_MORE = 'decoy configuration files in platform locations, runs without a per-user file, CMINXDIR with a tilde; near-duplicate and backslash patterns.'
+RULE_MORE = 'decoy configuration files in platform locations, runs without a per-user file, CMINXDIR with a tilde; near-duplicate and backslash patterns. (round 11) command-line values starting with an at-sign (prefix, output directory, pattern); a configured output directory spelled with `$HOME` / `${HOME}` (end-to-end sample).'
 ASSUMPTIONS = ["confuse honours CMINXDIR for the per-user configuration directory", "bare strings for list options and "
                "mappings for headers are not injected (confuse converts them; the property does not define them)"]
 BUDGET = {"quick": {"shards": 8, "examples": 200}, "thorough": {"shards": 16, "examples": 3000}}
@@ -72,6 +72,8 @@ def value_for(section, key, typ, src, flip, sb, absolute):
             return {"s": "::", "u": "/", "c": "-"}[src]
         if flip and src == "c" and key == "prefix" and absolute:
             return ""             # -p '' is a value, not an absent flag
+        if key == "prefix" and src == "c" and flip and not absolute:
+            return "@scope"       # a value, not a response file
         if key == "prefix" and not flip:
             return {"s": "prefix_s.", "u": "prefix_u::", "c": "prefix_c.-/"}[src]      # ends in characters separators are made of
         return {"s": f" {key[:6]}_{src} ", "u": f"{key[:6]} {src}\t", "c": f"{key[:6]}_{src}  "}[src] if flip else f"{key[:6]}_{src}"
@@ -81,9 +83,13 @@ def value_for(section, key, typ, src, flip, sb, absolute):
         if flip and src == "s":
             return []            # an empty list in a higher-priority source must not hide the lower ones
         # near-duplicates across sources (trailing slash, leading './', doubled slash) are different patterns
-        return {"s": ["pat_s1", "*.s2", "pat_c2", "./pat_u1"], "u": ["pat_u1", "pat_c1/", "gen*", "\\#hash_first.cmake", "a\\*b"], "c": ["pat_c1", "pat_c2/", "gen*/", "a//b"]}[src]
+        return {"s": ["pat_s1", "*.s2", "pat_c2", "./pat_u1"], "u": ["pat_u1", "pat_c1/", "gen*", "\\#hash_first.cmake", "a\\*b"], "c": ["pat_c1", "pat_c2/", "gen*/", "a//b", "@gen*"]}[src]
     if typ == "path-cli":
         rel = f"outdir_{src}/x"
+        if flip and src == "c":
+            rel = "@outdir_c/x"                 # argparse must not read it as a response file
+        elif flip and src == "s":
+            rel = "outdir_s_$HOME/${HOME}x"     # a legal directory name; environment variables are not expanded
         if absolute and getattr(sb, "dir_input", False):
             return sb.path("dirinput", "absout_" + src)       # an output directory inside the directory that is documented
         return sb.path("absout_" + src) if absolute else rel
